@@ -200,3 +200,148 @@ def c01OK (t : Tables) (w : Wrapper) : Bool :=
       | _, _ => false)
 
 end IRModel.Wrap
+
+/-! ### C05 at wrapper level: every accepted field vector is the encoder's image of the reported parameters -/
+namespace IRModel.Wrap
+open IRModel IRModel.Py IRModel.Proto
+
+/-- all root-to-leaf paths of a decode tree with the decisions taken on the way -/
+def paths : DTree → List (List (Cond × Bool) × List Eff × Outcome)
+  | .leaf e o => [([], e, o)]
+  | .ite c t e =>
+    (paths t).map (fun p => ((c, true) :: p.1, p.2)) ++ (paths e).map (fun p => ((c, false) :: p.1, p.2))
+
+def condSafe (F : FieldWidths) : Cond → Bool
+  | .cmp _ a b => safe F a && safe F b
+  | .lastEq => true
+  | .not c => condSafe F c
+  | .nbitsNe0 _ => false
+
+def treeSafe (F : FieldWidths) : DTree → Bool
+  | .leaf _ _ => true
+  | .ite c t e => condSafe F c && treeSafe F t && treeSafe F e
+
+/-- user parameters only occur where just their VALUE is used (operands of `IntegerWrapper(…)`, of int/IntegerWrapper
+    arithmetic, shift counts), never where a width is read -/
+def isParam : WExp → Bool
+  | .param _ => true
+  | _ => false
+
+def valueOnly : WExp → Bool
+  | .param _ => true
+  | .const _ => true
+  | .field _ | .lastfield _ => false              -- encoder-side expressions have neither
+  | .mk e _ | .mkd e => valueOnly e
+  | .bin _ a b | .ibin _ a b => valueOnly a && valueOnly b
+  | .shl a k | .shr a k => valueOnly a && !isParam a && valueOnly k
+  | .neg e | .pos e | .abs e | .inv e | .rev e | .invbits e _ | .revbits e _ | .slice e _ _ _ | .popcount e | .bit e _ =>
+    valueOnly e && !isParam e
+
+/-- every user parameter occurring in `e` is reported from an existing field -/
+def paramsCovered (F : FieldWidths) (ρ : String → String) : WExp → Bool
+  | .param n => (F.find? (fun p => p.1 == ρ n)).isSome
+  | .field _ | .lastfield _ | .const _ => true
+  | .mk e _ | .mkd e | .neg e | .pos e | .abs e | .inv e | .rev e | .invbits e _ | .revbits e _
+  | .slice e _ _ _ | .popcount e | .bit e _ => paramsCovered F ρ e
+  | .bin _ a b | .ibin _ a b | .shl a b | .shr a b => paramsCovered F ρ a && paramsCovered F ρ b
+
+/-- replace user parameters by the decoded field `IRCode` reports them from -/
+def substParam (ρ : String → String) : WExp → WExp
+  | .param n => .field (ρ n)
+  | .field n => .field n
+  | .lastfield n => .lastfield n
+  | .const k => .const k
+  | .mk e w => .mk (substParam ρ e) w
+  | .mkd e => .mkd (substParam ρ e)
+  | .bin op a b => .bin op (substParam ρ a) (substParam ρ b)
+  | .ibin op a b => .ibin op (substParam ρ a) (substParam ρ b)
+  | .shl a k => .shl (substParam ρ a) (substParam ρ k)
+  | .shr a k => .shr (substParam ρ a) (substParam ρ k)
+  | .neg a => .neg (substParam ρ a)
+  | .pos a => .pos (substParam ρ a)
+  | .abs a => .abs (substParam ρ a)
+  | .inv a => .inv (substParam ρ a)
+  | .rev a => .rev (substParam ρ a)
+  | .invbits a nb => .invbits (substParam ρ a) nb
+  | .revbits a nb => .revbits (substParam ρ a) nb
+  | .slice a s st sp => .slice (substParam ρ a) s st sp
+  | .popcount a => .popcount (substParam ρ a)
+  | .bit a i => .bit (substParam ρ a) i
+
+/-- `IntegerWrapper(<decoded field>, <its own width>)` is that field -/
+def normF (F : FieldWidths) : WExp → WExp
+  | .mk e w =>
+    match normF F e with
+    | .field n => if (F.find? (fun p => p.1 == n)).map (fun p => (p.2 : Int)) == some w then .field n else .mk (.field n) w
+    | e' => .mk e' w
+  | .param n => .param n
+  | .field n => .field n
+  | .lastfield n => .lastfield n
+  | .const k => .const k
+  | .mkd e => .mkd (normF F e)
+  | .bin op a b => .bin op (normF F a) (normF F b)
+  | .ibin op a b => .ibin op (normF F a) (normF F b)
+  | .shl a k => .shl (normF F a) (normF F k)
+  | .shr a k => .shr (normF F a) (normF F k)
+  | .neg a => .neg (normF F a)
+  | .pos a => .pos (normF F a)
+  | .abs a => .abs (normF F a)
+  | .inv a => .inv (normF F a)
+  | .rev a => .rev (normF F a)
+  | .invbits a nb => .invbits (normF F a) nb
+  | .revbits a nb => .revbits (normF F a) nb
+  | .slice a s st sp => .slice (normF F a) s st sp
+  | .popcount a => .popcount (normF F a)
+  | .bit a i => .bit (normF F a) i
+
+/-- two field-side expressions certainly have the same VALUE: syntactically equal, or closed with equal values -/
+def sameVal (x y : WExp) : Bool :=
+  x == y ||
+  (closed x && closed y &&
+    (match eval env0 x, eval env0 y with
+     | .ok a, .ok b => a.v == b.v
+     | _, _ => false))
+
+/-- the path forces `field k = e'` -/
+def justified (F : FieldWidths) (path : List (Cond × Bool)) (k : String) (e' : WExp) : Bool :=
+  e' == .field k ||
+  path.any (fun cb =>
+    match cb.1 with
+    | .cmp op a b =>
+      ((op == .eq && cb.2) || (op == .ne && !cb.2)) &&
+      ((normF F a == .field k && sameVal (normF F b) e') || (normF F b == .field k && sameVal (normF F a) e'))
+    | _ => false)
+
+/-- the parameter a user-visible attribute name maps back to (inverse of `viewKey` on the advertised names) -/
+def rhoOf (_t : Tables) : String → String := Props.C01.viewKey
+
+/-- **C05 at wrapper level**, the decidable obligation: the encoder side as in `c01OK`; every expression of the decode
+    tree is safe; on every path of the history-free tree that returns a code, the reported fields are the decoded ones
+    and EVERY `_parameters` field is forced, by the comparisons made on that path, to equal the encoder's expression
+    for it evaluated on the reported parameters; leaves that raise raise library errors. -/
+def c05OK (t : Tables) (w : Wrapper) : Bool :=
+  match firstPacket w with
+  | none => false
+  | some p =>
+    let F := widthsOf t
+    p.args.isEmpty && w.decTraced && t.decodeOverridden &&
+    t.params.all (fun prm => t.params.find? (fun q => q.1 == prm.1) == some prm && decide (prm.2.1 ≤ prm.2.2 + 1)) &&
+    t.params.all (fun prm =>
+      match p.kwargs.find? (fun k => k.1 == prm.1) with
+      | some k => safe [] k.2.2 && valueOnly k.2.2 && paramsCovered F (rhoOf t) k.2.2 && (!k.2.1 || staticW [] k.2.2 == some (prm.2.2 + 1 - prm.2.1))
+      | none => false) &&
+    treeSafe F w.treeNone &&
+    (paths w.treeNone).all (fun pth =>
+      match pth.2.2 with
+      | .ret fields _ =>
+        t.params.all (fun prm => fields.any (fun f => f.1 == prm.1 && f.2 == .field prm.1)) &&
+        fields.all (fun f => t.params.any (fun prm => prm.1 == f.1 && f.2 == .field prm.1)) &&
+        t.params.all (fun prm =>
+          match sigmaOf t p prm.1 with
+          | some e => justified F pth.1 prm.1 (normF F (substParam (rhoOf t) e))
+          | none => false)
+      | .raise cls => (errOfName cls).isLibrary
+      | .retLast => false
+      | .retOther => false)
+
+end IRModel.Wrap
